@@ -3,6 +3,7 @@
      FilerNSCreate  CreateEntry / UpdateEntry
      FilerNSDelete  DeleteEntryMetaAndData
      FilerNSRename  moveEntry / AtomicRenameEntry
-     FilerNSHist    histories, the reference namespace, the C18 statements *)
-From SW Require Export model.FilerNS proof.FilerNSBase proof.FilerNSCreate proof.FilerNSDelete
-  proof.FilerNSRename proof.FilerNSHist.
+     FilerNSHist    histories, the reference namespace, the C18 statements
+     FilerNSRaw     the request layer of AtomicRenameEntry (model/FilerNSRaw.v), narrow trigger, examples *)
+From SW Require Export model.FilerNS model.FilerNSRaw proof.FilerNSBase proof.FilerNSCreate proof.FilerNSDelete
+  proof.FilerNSRename proof.FilerNSHist proof.FilerNSRaw.
